@@ -607,7 +607,7 @@ impl Sub for EndToEnd {
         "library-made scoring matrix (count -> freq -> log-odds, wildcard column -inf) x sequence, scored by generic / sse2 / avx2 / each dispatcher arm; every cell at position >= L-M+1 must be -inf and max / argmax / threshold(best) through each arm must designate the best valid position; non-trivial = at least one valid position, >= 2 rows and a negative finite best score"
     }
     fn cases(&self, tier: Tier) -> u64 {
-        tier.pick(6_000, 300_000)
+        tier.pick(20_000, 600_000)
     }
     fn strategy(&self, tier: Tier) -> BoxedStrategy<E2eCase> {
         abc_strategy()
